@@ -32,6 +32,8 @@ import (
 	"os"
 	"reflect"
 	"runtime/debug"
+	"strings"
+	"time"
 
 	kruisev1alpha1 "github.com/openkruise/kruise-api/apps/v1alpha1"
 	kruisev1beta1 "github.com/openkruise/kruise-api/apps/v1beta1"
@@ -205,6 +207,7 @@ type ssIn struct {
 	Updated      int           `json:"updated"`      // status.canaryStatus.updatedReplicas of the release
 	NoNeedUpdate *int          `json:"noNeedUpdate"` // status.canaryStatus.noNeedUpdateReplicas
 	Matched      bool          `json:"matched"`      // a Rollout references the workload
+	Stray        bool          `json:"stray,omitempty"` // a selected pod whose controller owner does not exist any more is in the cluster
 	Pods         int           `json:"pods"`         // ready pods of the update revision owned by the workload (never touched: rollout-id is empty)
 	Steps        []ssStep      `json:"steps"`
 }
@@ -325,7 +328,13 @@ func ssApplyUS(u ssUS, into interface{}) {
 	must(json.Unmarshal(b, into))
 }
 
-func ssBuild(w *ssWl) client.Object {
+func ssBuild(w *ssWl) client.Object { return ssBuildS(w, nil) }
+
+// ssBuildS: st = the status fields read on the way to the readiness verdict (nil: update revision "rev-new", counters 0)
+func ssBuildS(w *ssWl, st *ssStatus) client.Object {
+	if st == nil {
+		st = &ssStatus{UpdateRevision: "rev-new"}
+	}
 	gvk := ssGVK(w.Kind)
 	av, kd := gvk.ToAPIVersionAndKind()
 	tm := metav1.TypeMeta{APIVersion: av, Kind: kd}
@@ -337,7 +346,8 @@ func ssBuild(w *ssWl) client.Object {
 		}
 		o.Spec.Selector, o.Spec.ServiceName, o.Spec.Template, o.Spec.MinReadySeconds = ssSelector(), "svc", ssTemplate(w.Tmpl), 7
 		ssApplyUS(w.US, &o.Spec.UpdateStrategy)
-		o.Status.UpdateRevision, o.Status.CurrentRevision = "rev-new", "rev-old"
+		o.Status.UpdateRevision, o.Status.CurrentRevision = st.UpdateRevision, "rev-old"
+		o.Status.UpdatedReplicas, o.Status.ReadyReplicas = int32(st.Updated), int32(st.Ready)
 		return o
 	case "advanced":
 		o := &kruisev1beta1.StatefulSet{TypeMeta: tm, ObjectMeta: ssMeta(w)}
@@ -346,7 +356,8 @@ func ssBuild(w *ssWl) client.Object {
 		}
 		o.Spec.Selector, o.Spec.ServiceName, o.Spec.Template = ssSelector(), "svc", ssTemplate(w.Tmpl)
 		ssApplyUS(w.US, &o.Spec.UpdateStrategy)
-		o.Status.UpdateRevision, o.Status.CurrentRevision = "rev-new", "rev-old"
+		o.Status.UpdateRevision, o.Status.CurrentRevision = st.UpdateRevision, "rev-old"
+		o.Status.UpdatedReplicas, o.Status.ReadyReplicas = int32(st.Updated), int32(st.Ready)
 		return o
 	case "daemonSet":
 		o := &kruisev1alpha1.DaemonSet{TypeMeta: tm, ObjectMeta: ssMeta(w)}
@@ -355,7 +366,8 @@ func ssBuild(w *ssWl) client.Object {
 		if w.Replicas != nil {
 			o.Status.DesiredNumberScheduled = int32(*w.Replicas)
 		}
-		o.Status.DaemonSetHash = "rev-new"
+		o.Status.DaemonSetHash = st.UpdateRevision
+		o.Status.UpdatedNumberScheduled, o.Status.NumberReady = int32(st.Updated), int32(st.Ready)
 		return o
 	}
 	spec := map[string]interface{}{"selector": ssJSONMap(ssSelector()), "serviceName": "svc", "minReadySeconds": 7}
@@ -369,7 +381,8 @@ func ssBuild(w *ssWl) client.Object {
 		spec["updateStrategy"] = v
 	}
 	obj := map[string]interface{}{"apiVersion": av, "kind": kd, "metadata": ssJSONMap(ssMeta(w)), "spec": spec,
-		"status": map[string]interface{}{"replicas": 3, "updatedReadyReplicas": w.UpdatedReady, "updateRevision": "rev-new", "currentRevision": "rev-old"}}
+		"status": map[string]interface{}{"replicas": 3, "updatedReadyReplicas": w.UpdatedReady, "updateRevision": st.UpdateRevision, "currentRevision": "rev-old",
+			"updatedReplicas": st.Updated, "readyReplicas": st.Ready}}
 	b, err := json.Marshal(obj)
 	must(err)
 	u := &unstructured.Unstructured{}
@@ -611,6 +624,17 @@ func ssRollout(kind string) *v1beta1.Rollout {
 	return ro
 }
 
+// ssStrayPod: a pod the workload's selector matches but that belongs to somebody else — its controller owner is a
+// ReplicaSet that no longer exists (deleted, the pod is waiting for the garbage collector).  `util.IsOwnedBy` ignores the
+// NotFound of the owner lookup: the pod is simply not the workload's.  It changes nothing the control plane does.
+func ssStrayPod() *corev1.Pod {
+	p := ssPod(0)
+	p.Name = "stray-0"
+	t := true
+	p.OwnerReferences = []metav1.OwnerReference{{APIVersion: "apps/v1", Kind: "ReplicaSet", Name: "ghost", UID: "ghost-uid", Controller: &t}}
+	return p
+}
+
 func ssPod(i int) *corev1.Pod {
 	p := &corev1.Pod{}
 	p.Namespace, p.Name = "ns", fmt.Sprintf("wl-%d", i)
@@ -626,7 +650,17 @@ func ssPod(i int) *corev1.Pod {
 // ssPodsUntouched: the pods are as they were created
 func ssPodsUntouched(base client.Client, n int) bool {
 	l := &corev1.PodList{}
-	if err := base.List(context.TODO(), l, client.InNamespace("ns")); err != nil || len(l.Items) != n {
+	if err := base.List(context.TODO(), l, client.InNamespace("ns")); err != nil {
+		return false
+	}
+	kept := l.Items[:0]
+	for _, it := range l.Items {
+		if !strings.HasPrefix(it.Name, "stray-") {
+			kept = append(kept, it)
+		}
+	}
+	l.Items = kept
+	if len(l.Items) != n {
 		return false
 	}
 	for i := range l.Items {
@@ -844,6 +878,9 @@ func ssRun(in *ssIn) interface{} {
 	for i := 0; i < in.Pods; i++ {
 		objs = append(objs, ssPod(i))
 	}
+	if in.Stray {
+		objs = append(objs, ssStrayPod())
+	}
 	base := fakeClient(objs...)
 	outs := []interface{}{}
 	for _, st := range in.Steps {
@@ -874,6 +911,14 @@ func ssCase(c *Ctx, in *ssIn) {
 }
 
 func replayCtlSts(c *Ctx, op string, raw json.RawMessage) {
+	if op == "verdict" {
+		var in ssVIn
+		if err := json.Unmarshal(raw, &in); err != nil {
+			panic(err)
+		}
+		ssVCase(c, &in)
+		return
+	}
 	var in ssIn
 	if err := json.Unmarshal(raw, &in); err != nil {
 		panic(err)
@@ -1034,7 +1079,7 @@ func ssLifeCycle(c *Ctx) *ssIn {
 		}
 	}
 	in := &ssIn{Wl: w, Batches: ssBatches(c, R), RollbackAnno: c.Rng.Intn(10) == 0, Updated: c.Rng.Intn(R + 1),
-		NoNeedUpdate: ssNoNeed(c, R, 12), Matched: c.Rng.Intn(8) != 0, Pods: []int{0, 0, 1, 3}[c.Rng.Intn(4)]}
+		NoNeedUpdate: ssNoNeed(c, R, 12), Matched: c.Rng.Intn(8) != 0, Pods: []int{0, 0, 1, 3}[c.Rng.Intn(4)], Stray: c.Rng.Intn(4) == 0}
 	nb := len(in.Batches)
 	tm := 1
 	batch := 0
@@ -1160,7 +1205,7 @@ func ssAnyWalk(c *Ctx) *ssIn {
 		R = *w.Replicas
 	}
 	in := &ssIn{Wl: w, Batches: ssBatches(c, R), RollbackAnno: c.Rng.Intn(5) == 0, Updated: c.Rng.Intn(R + 1),
-		NoNeedUpdate: ssNoNeed(c, R, 25), Matched: c.Rng.Intn(4) != 0, Pods: []int{0, 0, 2}[c.Rng.Intn(3)]}
+		NoNeedUpdate: ssNoNeed(c, R, 25), Matched: c.Rng.Intn(4) != 0, Pods: []int{0, 0, 2}[c.Rng.Intn(3)], Stray: c.Rng.Intn(4) == 0}
 	if c.Rng.Intn(25) == 0 {
 		in.Wl = nil
 	}
@@ -1196,11 +1241,491 @@ func ssAnyWalk(c *Ctx) *ssIn {
 
 func runCtlSts(c *Ctx) {
 	for i := 0; i < c.N; i++ {
-		switch r := c.Rng.Intn(10); {
-		case r < 6:
+		switch r := c.Rng.Intn(20); {
+		case r < 7:
 			ssCase(c, ssLifeCycle(c))
-		default:
+		case r < 12:
 			ssCase(c, ssAnyWalk(c))
+		default:
+			ssVCase(c, ssVGen(c))
 		}
 	}
+}
+
+// =====================================================================================================================
+// op "verdict" — the pods behind `updatedReadyReplicas` and the readiness verdict.
+//
+// A workload (any of the four representations), its status counters and a list of abstract pods are concretised in the
+// fake client; then the REAL code runs twice on fresh planes:
+//
+//	partitionstyle.realBatchControlPlane.EnsureBatchPodsReadyAndLabeled      → the verdict (IsBatchReady's answer)
+//	statefulset|daemonset.realController.BuildController + CalculateBatchContext → the counters and the context fields
+//
+// and — when the input names a pod that degrades (turns not ready / terminating / another revision / is deleted /
+// fails / loses its owner) — once more on the cluster after the degradation.  The Lean model (RV.CtlSts.planeVerdict)
+// computes the same from the abstract pods; the oracles C11.sts_* / C07.sts_* are evaluated on what the code answered.
+// =====================================================================================================================
+
+// ssStatus: the status fields of the workload read on the way to the verdict
+type ssStatus struct {
+	UpdateRevision string `json:"updateRevision"` // status.updateRevision / daemonSetHash
+	Updated        int    `json:"updated"`        // status.updatedReplicas / updatedNumberScheduled
+	Ready          int    `json:"ready"`          // status.readyReplicas / numberReady (must not matter)
+}
+
+// ssPodA: one abstract pod (mirrors RV.CtlSts.Pod; ownerVariant only picks the concrete shape of the owner class)
+type ssPodA struct {
+	InNamespace  bool        `json:"inNamespace"`
+	SelMatch     bool        `json:"selMatch"`
+	Phase        string      `json:"phase"`
+	Owner        string      `json:"owner"` // none | this | other | via
+	OwnerVariant int         `json:"ownerVariant"`
+	Terminating  bool        `json:"terminating"`
+	HashLabel    string      `json:"hashLabel"` // pod-template-hash
+	RevLabel     string      `json:"revLabel"`  // controller-revision-hash
+	Conds        [][2]string `json:"conds"`     // status.conditions (type, status)
+}
+
+type ssDegrade struct {
+	Index int    `json:"index"`
+	How   string `json:"how"` // notReady | terminating | otherRevision | deleted | failed | disowned
+}
+
+type ssVIn struct {
+	Wl               *ssWl       `json:"wl"`
+	Status           ssStatus    `json:"status"`
+	Pods             []ssPodA    `json:"pods"`
+	Batches          []interface{} `json:"batches"`
+	NoNeedUpdate     *int        `json:"noNeedUpdate"`
+	FailureThreshold interface{} `json:"failureThreshold"`
+	Batch            int         `json:"batch"`
+	Fault            string      `json:"fault"` // none | get | list | write
+	Degrade          *ssDegrade  `json:"degrade"`
+}
+
+func ssPodConcrete(i int, a ssPodA, kind string) *corev1.Pod {
+	p := &corev1.Pod{}
+	p.Namespace, p.Name = "ns", fmt.Sprintf("wl-%d", i)
+	if !a.InNamespace {
+		p.Namespace = "elsewhere"
+	}
+	p.Labels = map[string]string{"tier": "x"}
+	if a.SelMatch {
+		p.Labels["app"] = "demo"
+	} else if i%2 == 0 {
+		p.Labels["app"] = "other"
+	}
+	if a.HashLabel != "" {
+		p.Labels[apps.DefaultDeploymentUniqueLabelKey] = a.HashLabel
+	}
+	if a.RevLabel != "" {
+		p.Labels[apps.ControllerRevisionHashLabelKey] = a.RevLabel
+	}
+	t, f := true, false
+	gvk := ssGVK(kind)
+	av, kd := gvk.ToAPIVersionAndKind()
+	switch a.Owner {
+	case "none":
+		switch a.OwnerVariant % 3 {
+		case 1: // a plain (non-controller) reference to the workload
+			p.OwnerReferences = []metav1.OwnerReference{{APIVersion: av, Kind: kd, Name: "wl", UID: "wl-uid"}}
+		case 2:
+			p.OwnerReferences = []metav1.OwnerReference{{APIVersion: av, Kind: kd, Name: "wl", UID: "wl-uid", Controller: &f}}
+		}
+	case "this":
+		p.OwnerReferences = []metav1.OwnerReference{{APIVersion: av, Kind: kd, Name: "wl", UID: "wl-uid", Controller: &t}}
+		if a.OwnerVariant%2 == 1 { // behind a plain reference to something else
+			p.OwnerReferences = append([]metav1.OwnerReference{{APIVersion: "v1", Kind: "ConfigMap", Name: "cm", UID: "cm-uid"}}, p.OwnerReferences...)
+		}
+	case "other":
+		switch a.OwnerVariant % 3 {
+		case 0: // an earlier incarnation of the workload: same name, stale UID
+			p.OwnerReferences = []metav1.OwnerReference{{APIVersion: av, Kind: kd, Name: "wl", UID: "wl-uid-old", Controller: &t}}
+		case 1: // an owner that does not exist
+			p.OwnerReferences = []metav1.OwnerReference{{APIVersion: "apps/v1", Kind: "ReplicaSet", Name: "ghost", UID: "ghost-uid", Controller: &t}}
+		case 2: // an existing owner that somebody else controls
+			p.OwnerReferences = []metav1.OwnerReference{{APIVersion: "apps/v1", Kind: "ReplicaSet", Name: "mid-foreign", UID: "mid-foreign-uid", Controller: &t}}
+		}
+	case "via": // pod -> ReplicaSet "mid" -> workload
+		p.OwnerReferences = []metav1.OwnerReference{{APIVersion: "apps/v1", Kind: "ReplicaSet", Name: "mid", UID: "mid-uid", Controller: &t}}
+	default:
+		panic("ctlsts: pod owner " + a.Owner)
+	}
+	if a.Terminating {
+		ts := metav1.NewTime(time.Unix(1700000000, 0))
+		p.DeletionTimestamp = &ts
+		p.Finalizers = []string{"verif.example.io/hold"}
+	}
+	p.Spec.Containers = []corev1.Container{{Name: "main", Image: "img:v2"}}
+	p.Status.Phase = corev1.PodPhase(a.Phase)
+	for _, cnd := range a.Conds {
+		p.Status.Conditions = append(p.Status.Conditions, corev1.PodCondition{Type: corev1.PodConditionType(cnd[0]), Status: corev1.ConditionStatus(cnd[1])})
+	}
+	return p
+}
+
+// ssMidObjects: the intermediate owners the pods may name
+func ssMidObjects() []client.Object {
+	t := true
+	mk := func(name, uid, ownerUID string) *apps.ReplicaSet {
+		rs := &apps.ReplicaSet{}
+		rs.Namespace, rs.Name, rs.UID = "ns", name, types.UID(uid)
+		rs.OwnerReferences = []metav1.OwnerReference{{APIVersion: "v1", Kind: "X", Name: "wl", UID: types.UID(ownerUID), Controller: &t}}
+		rs.Spec.Selector = ssSelector()
+		return rs
+	}
+	return []client.Object{mk("mid", "mid-uid", "wl-uid"), mk("mid-foreign", "mid-foreign-uid", "someone-else")}
+}
+
+func ssDegradePod(a ssPodA, how string) (ssPodA, bool) {
+	switch how {
+	case "notReady":
+		a.Conds = [][2]string{{"Ready", "False"}}
+	case "terminating":
+		a.Terminating = true
+	case "otherRevision":
+		a.HashLabel, a.RevLabel = "", ""
+	case "deleted":
+		return a, false
+	case "failed":
+		a.Phase = "Failed"
+	case "disowned":
+		a.Owner = "none"
+	default:
+		panic("ctlsts: degrade " + how)
+	}
+	return a, true
+}
+
+func ssDegradeAt(pods []ssPodA, d *ssDegrade) []ssPodA {
+	out := []ssPodA{}
+	for i, a := range pods {
+		if i == d.Index {
+			if b, keep := ssDegradePod(a, d.How); keep {
+				out = append(out, b)
+			}
+			continue
+		}
+		out = append(out, a)
+	}
+	return out
+}
+
+func ssReadyClass(err error) string {
+	if err == nil {
+		return "ok"
+	}
+	m := err.Error()
+	switch {
+	case strings.Contains(m, "updated replicas not satisfied"):
+		return "notUpdated"
+	case strings.Contains(m, "updated ready replicas not satisfied"):
+		return "notReady"
+	case strings.Contains(m, "no updated ready replicas"):
+		return "noneReady"
+	case strings.Contains(m, "pods with batch label not satisfied"):
+		return "notLabelled"
+	}
+	return "err"
+}
+
+// ssVerdictOnce: one readiness check of the real code on a fresh cluster holding the workload and the pods
+func ssVerdictOnce(in *ssVIn, pods []ssPodA) interface{} {
+	must(flag.Set("filter-workload-type", "false"))
+	kind := "native"
+	objs := []client.Object{}
+	if in.Wl != nil {
+		kind = in.Wl.Kind
+		objs = append(objs, ssBuildS(in.Wl, &in.Status))
+	}
+	objs = append(objs, ssMidObjects()...)
+	for i, a := range pods {
+		objs = append(objs, ssPodConcrete(i, a, kind))
+	}
+	base := fakeClient(objs...)
+	world := func() interface{} {
+		out := []interface{}{}
+		if in.Wl != nil {
+			got := ssEmpty(kind)
+			if err := base.Get(context.TODO(), ssKey, got); err != nil {
+				return "gone"
+			}
+			out = append(out, ssJSONMap(got))
+		}
+		l := &corev1.PodList{}
+		must(base.List(context.TODO(), l))
+		for i := range l.Items {
+			out = append(out, ssJSONMap(&l.Items[i]))
+		}
+		return out
+	}
+	before := world()
+	lc := NewLogClient(base)
+	if in.Fault == "write" {
+		lc.FailAt = 0
+	}
+	cli := &ssFaultClient{Client: lc, failGet: in.Fault == "get", failList: in.Fault == "list"}
+	win := &ssIn{Batches: in.Batches, NoNeedUpdate: in.NoNeedUpdate}
+	rel := ssRelease(win, kind, ssStep{Batch: in.Batch})
+	rel.Spec.ReleasePlan.FailureThreshold = iosFromAny(in.FailureThreshold)
+	f := pstatefulset.NewController
+	if kind == "daemonSet" {
+		f = pdaemonset.NewController
+	}
+	out := J{"counters": nil, "ctx": nil}
+	// the verdict: the control plane's own entry point
+	plane := partitionstyle.NewControlPlane(f, cli, record.NewFakeRecorder(100), rel, rel.Status.DeepCopy(), ssKey, ssGVK(kind))
+	out["verdict"] = ssReadyClass(plane.EnsureBatchPodsReadyAndLabeled())
+	// the numbers behind it: a fresh controller of the same kind
+	ctrl, err := f(cli, ssKey, ssGVK(kind)).BuildController()
+	if err == nil {
+		info := ctrl.GetWorkloadInfo()
+		out["counters"] = J{"replicas": int(info.Replicas), "updated": int(info.Status.UpdatedReplicas), "updatedReady": int(info.Status.UpdatedReadyReplicas)}
+		if info.Replicas != 0 {
+			bc, err := ctrl.CalculateBatchContext(rel.DeepCopy())
+			if err == nil {
+				out["ctx"] = J{"updated": int(bc.UpdatedReplicas), "updatedReady": int(bc.UpdatedReadyReplicas), "desired": int(bc.DesiredUpdatedReplicas),
+					"planned": int(bc.PlannedUpdatedReplicas), "currentPartition": int(bc.CurrentPartition.IntVal), "desiredPartition": int(bc.DesiredPartition.IntVal)}
+			}
+		}
+	}
+	out["writes"] = len(lc.Log)
+	out["untouched"] = reflect.DeepEqual(before, world())
+	return out
+}
+
+func ssVRun(in *ssVIn) interface{} {
+	res := J{"second": nil}
+	res["first"] = guard(func() interface{} { return ssVerdictOnce(in, in.Pods) })
+	if in.Degrade != nil {
+		res["second"] = guard(func() interface{} { return ssVerdictOnce(in, ssDegradeAt(in.Pods, in.Degrade)) })
+	}
+	return res
+}
+
+func ssVCase(c *Ctx, in *ssVIn) { c.Emit("verdict", in, ssVRun(in)) }
+
+// ---- generator of verdict cases ----
+
+func ssVRevision(c *Ctx) string {
+	switch c.Rng.Intn(12) {
+	case 0:
+		return ""
+	case 1, 2, 3:
+		return "wl-6d8f9c7b5"
+	case 4:
+		return "6d8f9c7b5"
+	}
+	return "rev-new"
+}
+
+// a label value the revision ends with (true) or does not (false)
+func ssVLabel(c *Ctx, rev string, consistent bool) string {
+	if consistent {
+		if rev == "" {
+			return "" // nothing is consistent with an empty revision: the caller falls back
+		}
+		switch c.Rng.Intn(4) {
+		case 0:
+			return rev[len(rev)/2:]
+		case 1:
+			return rev[len(rev)-1:]
+		}
+		return rev
+	}
+	switch c.Rng.Intn(6) {
+	case 0:
+		return ""
+	case 1:
+		return "x" + rev // longer than the revision
+	case 2:
+		if len(rev) > 1 {
+			return rev[:len(rev)-1] // a prefix
+		}
+		return "zzz"
+	case 3:
+		return "rev-old"
+	case 4:
+		return strings.ToUpper(rev) + "!"
+	}
+	return "5c9d7f6b8"
+}
+
+func ssVConds(c *Ctx, ready bool) [][2]string {
+	if ready {
+		switch c.Rng.Intn(5) {
+		case 0:
+			return [][2]string{{"PodScheduled", "True"}, {"Ready", "True"}, {"ContainersReady", "True"}}
+		case 1:
+			return [][2]string{{"Ready", "True"}, {"Ready", "False"}} // the first one wins
+		}
+		return [][2]string{{"Ready", "True"}}
+	}
+	switch c.Rng.Intn(8) {
+	case 0:
+		return nil
+	case 1:
+		return [][2]string{{"Ready", "Unknown"}}
+	case 2:
+		return [][2]string{{"ContainersReady", "True"}, {"PodScheduled", "True"}}
+	case 3:
+		return [][2]string{{"Ready", "False"}, {"Ready", "True"}} // the first one wins
+	case 4:
+		return [][2]string{{"Ready", "true"}}
+	case 5:
+		return [][2]string{{"ready", "True"}}
+	}
+	return [][2]string{{"Initialized", "True"}, {"Ready", "False"}}
+}
+
+// ssVPod: a pod with the given (terminating, revision-consistent, ready) attributes, otherwise one of the workload's own
+func ssVPod(c *Ctx, rev string, term, cons, ready bool) ssPodA {
+	a := ssPodA{InNamespace: true, SelMatch: true, Phase: "Running", Owner: "this", OwnerVariant: c.Rng.Intn(6), Terminating: term, Conds: ssVConds(c, ready)}
+	if cons {
+		switch c.Rng.Intn(4) {
+		case 0: // Deployment-style label only
+			a.HashLabel = ssVLabel(c, rev, true)
+		case 1: // a stale pod-template-hash next to the right controller-revision-hash
+			a.HashLabel, a.RevLabel = ssVLabel(c, rev, false), ssVLabel(c, rev, true)
+		default:
+			a.RevLabel = ssVLabel(c, rev, true)
+		}
+	} else {
+		a.RevLabel = ssVLabel(c, rev, false)
+		if c.Rng.Intn(4) == 0 {
+			a.HashLabel = ssVLabel(c, rev, false)
+		}
+	}
+	if c.Rng.Intn(12) == 0 {
+		a.Phase = ssPickS(c, "Pending", "", "Unknown")
+	}
+	return a
+}
+
+func ssVFT(c *Ctx, R int) interface{} {
+	switch c.Rng.Intn(12) {
+	case 0, 1, 2, 3, 4:
+		return nil
+	case 5, 6:
+		return J{"i": c.Rng.Intn(3)}
+	case 7, 8:
+		return J{"p": []int{0, 10, 20, 34, 50, 100}[c.Rng.Intn(6)]}
+	case 9:
+		return J{"i": -1}
+	case 10:
+		return J{"s": "bad"}
+	}
+	return J{"i": R}
+}
+
+// (terminating, revision-consistent, ready): the seven combinations that must not count
+var ssVCombos = [][3]bool{{true, true, true}, {true, true, false}, {true, false, true}, {true, false, false},
+	{false, true, false}, {false, false, true}, {false, false, false}}
+
+func ssVGen(c *Ctx) *ssVIn {
+	kind := ssKindGen(c)
+	R := 1 + c.Rng.Intn(10)
+	switch c.Rng.Intn(30) {
+	case 0, 1:
+		R = 0
+	case 2:
+		R = 20 + c.Rng.Intn(30)
+	}
+	w := &ssWl{Kind: kind, Replicas: &R, US: ssGenUS(c, kind, R, false), Control: ssPickS(c, "this", "this", "this", "none", "other"),
+		InProgress: c.Rng.Intn(4) != 0, Tmpl: 2, TmplPresent: true}
+	if kind != "daemonSet" && c.Rng.Intn(40) == 0 {
+		w.Replicas = nil
+	}
+	if kind == "unstructured" {
+		w.UpdatedReady = []int{0, 0, 0, 0, -1, 1, 2, R, R / 2}[c.Rng.Intn(9)]
+	}
+	in := &ssVIn{Wl: w, Batches: ssBatches(c, R), NoNeedUpdate: ssNoNeed(c, R, 15), FailureThreshold: ssVFT(c, R), Fault: "none"}
+	if c.Rng.Intn(12) == 0 {
+		in.Fault = ssPickS(c, "get", "list", "list", "write")
+	}
+	if c.Rng.Intn(40) == 0 {
+		in.Wl = nil
+	}
+	if nb := len(in.Batches); nb > 0 {
+		in.Batch = c.Rng.Intn(nb)
+	}
+	switch c.Rng.Intn(60) {
+	case 0:
+		in.Batch = len(in.Batches)
+	case 1:
+		in.Batch = -1
+	}
+	rev := ssVRevision(c)
+	in.Status = ssStatus{UpdateRevision: rev, Ready: c.Rng.Intn(R + 3)}
+	// how far the rollout of this batch got: the workload controller's own counter and the pods
+	switch c.Rng.Intn(5) {
+	case 0:
+		in.Status.Updated = c.Rng.Intn(R + 1)
+	case 1:
+		in.Status.Updated = R + c.Rng.Intn(2)
+	default:
+		in.Status.Updated = R - c.Rng.Intn(R/3+1)
+	}
+	good := c.Rng.Intn(R + 2)
+	if c.Rng.Intn(3) != 0 {
+		good = R - c.Rng.Intn(R/2+1)
+	}
+	// a batch that is ready with nothing to spare: one pod less and it is not
+	tight := R > 0 && rev != "" && in.Wl != nil && in.Wl.Replicas != nil && c.Rng.Intn(4) == 0
+	if tight {
+		k := 1 + c.Rng.Intn(R)
+		in.Batches, in.Batch, in.NoNeedUpdate, in.Fault = []interface{}{J{"i": k}}, 0, nil, "none"
+		in.FailureThreshold = []interface{}{nil, nil, J{"i": 0}, J{"i": 1}, J{"p": 10}}[c.Rng.Intn(5)]
+		in.Status.Updated = k + c.Rng.Intn(R-k+1)
+		good = k + c.Rng.Intn(2)
+		if in.Wl.Kind == "unstructured" && in.Wl.UpdatedReady > 0 && c.Rng.Intn(3) != 0 {
+			in.Wl.UpdatedReady = 0
+		}
+	}
+	for i := 0; i < good; i++ {
+		in.Pods = append(in.Pods, ssVPod(c, rev, false, true, true))
+	}
+	// every other combination of (terminating, consistent, ready)
+	extra := c.Rng.Intn(5)
+	for i := 0; i < extra; i++ {
+		m := ssVCombos[c.Rng.Intn(len(ssVCombos))] // at least one attribute off
+		in.Pods = append(in.Pods, ssVPod(c, rev, m[0], m[1], m[2]))
+	}
+	// pods that ListOwnedPods never hands over, however ready they are
+	n := c.Rng.Intn(4)
+	if c.Rng.Intn(3) == 0 {
+		n = 0
+	}
+	for i := 0; i < n; i++ {
+		a := ssVPod(c, rev, false, true, true)
+		switch c.Rng.Intn(7) {
+		case 0:
+			a.InNamespace = false
+		case 1:
+			a.SelMatch = false
+		case 2:
+			a.Phase = ssPickS(c, "Failed", "Succeeded")
+		case 3:
+			a.Owner = "none"
+		case 4, 5:
+			a.Owner = "other"
+		case 6:
+			a.Owner = "via" // … and one that it does, through an intermediate owner
+		}
+		in.Pods = append(in.Pods, a)
+	}
+	c.Rng.Shuffle(len(in.Pods), func(i, j int) { in.Pods[i], in.Pods[j] = in.Pods[j], in.Pods[i] })
+	if len(in.Pods) > 0 && c.Rng.Intn(4) != 0 {
+		in.Degrade = &ssDegrade{Index: c.Rng.Intn(len(in.Pods)), How: ssPickS(c, "notReady", "notReady", "terminating", "terminating", "otherRevision", "deleted", "failed", "disowned")}
+		if tight || c.Rng.Intn(2) == 0 { // prefer a pod that counts
+			for k := 0; k < len(in.Pods); k++ {
+				a := in.Pods[(in.Degrade.Index+k)%len(in.Pods)]
+				if !a.Terminating && a.Owner == "this" && a.SelMatch && a.InNamespace && len(a.Conds) > 0 && a.Conds[0] == [2]string{"Ready", "True"} {
+					in.Degrade.Index = (in.Degrade.Index + k) % len(in.Pods)
+					break
+				}
+			}
+		}
+	}
+	return in
 }
